@@ -37,6 +37,11 @@ def clStep (c : CL) (toks : List String) : Option (CL × String) :=
       | none =>
         -- still pending: remember that its client is gone
         let c' := clSettle 64 { c with closed := id :: c.closed }; (c', clServed c')
+  | ["cl.acceptfail", n] =>
+    -- the next n accept(2) calls fail (the waiting connection stays in the backlog): n `acceptFail` steps of the LTS
+    n.toNat?.bind fun n =>
+      ((List.replicate n (ConnLimit.Ev.acceptFail false)).foldlM ConnLimit.step c.st).map fun s =>
+        let c' := clSettle 64 { c with st := s }; (c', clServed c')
   | ["cl.served"] => some (c, clServed c)
   | _ => none
 
